@@ -859,6 +859,8 @@ R9_RULES = [
             "let mut r9_n: usize = 0; let r9_len: usize = $$e.len(); while r9_n < r9_len { let $x = $$e.nth_value_mut(r9_n); r9_n = r9_n + 1;"),
     ("R9r", "for ( $a , $b ) in $$e . iter_mut ( ) {",
             "let mut r9_n: usize = 0; while r9_n < $$e.len() { let r9_p = &mut $$e[r9_n]; let $a = &r9_p.0; let $b = &mut r9_p.1; r9_n = r9_n + 1;"),
+    ("R9v", "for $i in 0 .. $$n {",
+            "let mut r9_n: usize = 0; let r9_end: usize = $$n; while r9_n < r9_end { let $i = r9_n; r9_n = r9_n + 1;"),
     ("R9k", "for $x in $$e . iter_mut ( ) {",
             "let mut r9_n: usize = 0; while r9_n < $$e.len() { let $x = &mut $$e[r9_n]; r9_n = r9_n + 1;"),
     ("R9j", "for $x in $e {",
@@ -1035,6 +1037,8 @@ def trace_calls(body, names, rules_log):
         toks = full_tokens(body)
         sig = [i for i, t in enumerate(toks) if t.kind not in ("ws", "comment")]
         hit = None
+        resnames = {n[:-1] for n in names if n.endswith("?")}      # `f?`: the event records whether the call returned Ok
+        names = [n[:-1] if n.endswith("?") else n for n in names]
         plain = [n for n in names if "." not in n]
         qual = {n.split(".")[1]: n.split(".")[0] for n in names if "." in n}
         for q, i in enumerate(sig):
@@ -1087,7 +1091,8 @@ def trace_calls(body, names, rules_log):
             continue
         # the marker keeps the rewritten call from being matched again (it sits right after the inner call)
         inner = "".join(t.text for t in toks[a:close + 1]) + "/*r24*/"
-        body = ("".join(t.text for t in toks[:a]) + "({ let r24_v = " + inner + "; proof { r24_trace = r24_trace.push(%dint); } r24_v })" % idx
+        ev = ("(%dint + r24_bit(r24_v is Ok))" % (2 * idx)) if mname in resnames else ("%dint" % idx)
+        body = ("".join(t.text for t in toks[:a]) + "({ let r24_v = " + inner + "; proof { r24_trace = r24_trace.push(" + ev + "); } r24_v })"
                 + "".join(t.text for t in toks[close + 1:]))
         rules_log.append(("R24", f"`{norm(expr)[:120]}`: recorded as event {idx} ({toks[sig[q]].text}) in the ghost trace r24_trace"))
         n_done += 1
